@@ -171,16 +171,20 @@ Definition w3 (vr : variant) (l : lvl) (k : key) (sm : smode) (v : val) sh : out
   end.
 
 (* Process.ppid(): self._raise_if_pid_reused() before the platform call.
-   _gone set -> NoSuchProcess; otherwise is_running() builds Process(pid): pid gone -> _gone = True
-   (and the platform call then raises by itself); alive -> same identity -> go on.
-   A denied stat during that check marks the PID as reused (C01/C02 territory): outside this model. *)
-Inductive ires := IOk (sh : shared) | IRaise (e : exn) | IOut.
+   _gone already set -> NoSuchProcess without looking at anything.
+   Otherwise is_running() builds Process(pid) and compares identities:
+   * alive, stat readable -> same identity -> go on;
+   * stat unreadable -> the new object's creation time is None: "the PID exists and nothing says it was
+     reused" -> go on (the platform call then raises AccessDenied by itself);
+   * pid gone -> Process(pid) raises NoSuchProcess -> _gone = True, is_running() False, no raise here
+     (the platform call then fails, or is answered by the block's cache). *)
+Inductive ires := IOk (sh : shared) | IRaise (e : exn) | IOut.   (* IOut: kept for totality, not produced *)
 Definition ident_check sh : ires :=
   if gone_flag sh then IRaise NoSuchProcess
   else match srcs sh Stat with
        | SAvail _ => IOk sh
        | SGone => IOk (set_gone sh true)
-       | SDenied => IOut
+       | SDenied => IOk sh
        end.
 
 (* environment events (process-state changes) *)
